@@ -33,14 +33,24 @@ class Acc:
         self.w = {}
 
     def add(self, pred, cls, resid, thr, where=None, sig=None, n=1, note=None):
+        """Thresholds may differ between calls of one (pred, cls): the record keeps the
+        residual with the largest margin residual/threshold, together with ITS threshold."""
         k = (pred, cls)
-        e = self.w.setdefault(k, {"n": 0, "worst": 0.0, "thr": thr, "where": None, "sig": None, "nfail": 0, "note": note})
+        e = self.w.setdefault(k, {"n": 0, "worst": 0.0, "thr": thr, "where": None, "sig": None, "nfail": 0, "note": note, "margin": -1.0})
         e["n"] += n
         bad = not (resid <= thr)
         if bad:
             e["nfail"] += 1
-        if resid != resid or resid > e["worst"] or (bad and e["where"] is None):
+        if resid != resid:
+            margin = float("inf")
+        elif thr > 0:
+            margin = resid / thr
+        else:
+            margin = float("inf") if resid > 0 else 0.0
+        if margin > e["margin"] or (bad and e["where"] is None):
+            e["margin"] = margin
             e["worst"] = float(resid)
+            e["thr"] = thr
             e["where"] = where
             if bad and sig:
                 e["sig"] = sig
